@@ -106,7 +106,7 @@ def c16(prop, tier, verdict):
 
 def c17(prop, tier, verdict):
     def cl(line, s):
-        return 'secure:%s/kind=%s,marker=%s,accept=%s,enforce=%s,keys=%s,codec=%s' % (line.get('ev'), s.get('kind'), s.get('marker'), s.get('accept'), s.get('enforce'), s.get('keys'), s.get('codec'))
+        return 'secure:%s/kind=%s,marker=%s,accept=%s,enforce=%s,keys=%s,codec=%s%s' % (line.get('ev'), s.get('kind'), s.get('marker'), s.get('accept'), s.get('enforce'), s.get('keys'), s.get('codec'), ',hret=okstatus' if s.get('hret') == 'okstatus' else '')
     cov, _ = eng_generic.run(prop, tier, verdict, 'Secure', 'secure', 'PSecure', cl, mc_cfg='Secure_mc.cfg', min_count=700, repeats=3 if tier == 'thorough' else 1,
                              nontrivial=lambda s: s['marker'] != 'none' or s['accept'] != 'absent' or s['enforce'])
     return 'model_checking', cov, ['matrix complete: kind x secure marker x accept-secure x enforced secure reply x equal/different keys x key length 16/24/32 x codec json/protobuf x 4 body classes',
